@@ -61,6 +61,7 @@ pub fn all() -> Vec<Scenario> {
         Scenario { name: "nested_var_write_inside_deferred_modify", props: &["C04", "C08"], run: nested_var_write_inside_deferred_modify },
         Scenario { name: "on_update_added_from_on_update_handler", props: &["C04"], run: on_update_added_from_on_update_handler },
         Scenario { name: "unsubscribe_from_drop_of_handler_capture", props: &["C04", "C10", "C12"], run: unsubscribe_from_drop_of_handler_capture },
+        Scenario { name: "guard_cancels_sibling_subscription_on_drop", props: &["C04", "C10", "C09"], run: guard_cancels_sibling_subscription_on_drop },
         Scenario { name: "state_unsubscribe_before_first_stabilise", props: &["C09", "C10"], run: state_unsubscribe_before_first_stabilise },
     ]
 }
@@ -1325,5 +1326,62 @@ fn shrink_limit_after_tall_graph_released() -> Result<(), String> {
     let o = n.observe();
     st.stabilise();
     check!(o.try_get_value() == Ok(4), "after shrinking {:?}", o.try_get_value());
+    Ok(())
+}
+
+
+/// As `unsubscribe_from_drop_of_handler_capture`, but the token the guard cancels belongs to a
+/// *sibling* subscription of the same observer, and the handler holding the guard is dropped by
+/// `unsubscribe` / by disallowing a new observer (defect #27): both dropped the handler while the
+/// observer's handler table was mutably borrowed.
+fn guard_cancels_sibling_subscription_on_drop() -> Result<(), String> {
+    struct Guard {
+        state: incremental::WeakState,
+        token: incremental::SubscriptionToken,
+    }
+    impl Drop for Guard {
+        fn drop(&mut self) {
+            self.state.unsubscribe(self.token);
+        }
+    }
+    for how in 0..4 {
+        let st = IncrState::new();
+        let v = st.var(1i64);
+        let o = v.observe();
+        let hits = Rc::new(Cell::new(0));
+        let h = hits.clone();
+        let t1 = o.subscribe(move |_| h.set(h.get() + 1));
+        let g = Guard { state: st.weak(), token: t1 };
+        let t2 = o.subscribe(move |_| {
+            let _ = &g;
+        });
+        let keep = v.observe();
+        match how {
+            // the handler holding the guard is unsubscribed before / after the first stabilise
+            0 => {
+                o.unsubscribe(t2).map_err(|e| format!("{e:?}"))?;
+            }
+            1 => {
+                st.stabilise();
+                check!(hits.get() == 1, "how={how}: {} deliveries", hits.get());
+                st.unsubscribe(t2);
+            }
+            // the observer is disallowed while new / while in use
+            2 => o.disallow_future_use(),
+            _ => {
+                st.stabilise();
+                o.disallow_future_use();
+            }
+        }
+        let before = hits.get();
+        v.set(2);
+        st.stabilise();
+        v.set(3);
+        st.stabilise();
+        check!(hits.get() == before, "how={how}: the sibling subscription cancelled by the guard (or its observer) still received {} update(s)", hits.get() - before);
+        check!(keep.try_get_value() == Ok(3), "how={how}: {:?}", keep.try_get_value());
+        let a = st.verif_audit();
+        check!(a.is_empty(), "how={how}: audit: {}", a.join(" / "));
+    }
     Ok(())
 }
